@@ -31,7 +31,9 @@ def dtype_kind(ex, st, kwargs, default='real'):
     dt = kwargs.get('dtype')
     if dt is None:
         return default
-    dt = ex.deref(st, dt)
+    dt = ex.deref(st, resolve(ex, st, dt))
+    if dt is None:
+        return default
     name = getattr(dt, 'name', dt)
     if name == 'int':
         return 'int'
@@ -39,6 +41,8 @@ def dtype_kind(ex, st, kwargs, default='real'):
         return 'bool'
     if name == 'float':
         return 'real'
+    if isinstance(dt, Opaque) and dt.what == 'dtype':
+        return 'Blob'
     return default
 
 
@@ -325,6 +329,9 @@ def install(reg):
         def h(ex, st, args, kw, node):
             shp = shape_arg(ex, st, args[0] if args else kw['shape'], node)
             k = dtype_kind(ex, st, kw, 'real')
+            if k not in ('int', 'real', 'bool'):
+                # array of an opaque element sort: contents unconstrained
+                return st.alloc(A.fresh_arr(st, k, 'z', n=I(shp[0])), 'z')
             val = val_of_kind(k)
             if len(shp) == 1:
                 return st.alloc(A.const_arr(I(shp[0]), val, k), 'z')
@@ -440,7 +447,7 @@ def install(reg):
             if v.k == 'int':
                 return Sym(sum_int(st, v), 'int')
             if v.k == 'real':
-                return Sym(M.f_sumr(M.as_lambda(v), v.n), 'real')
+                return Sym(array_fn(st, 'sum_real', v, 'real'), 'real')
         if isinstance(v, PyList):
             hk = reg.sum_axis_hook
             if hk is not None:
@@ -624,7 +631,7 @@ def install(reg):
             if isinstance(v, Arr) and v.k in ('int', 'real'):
                 ex.need(st)('amax_nonempty', v.n >= 1)
                 vr = A.to_real(v)
-                t = f(M.as_lambda(vr), v.n)
+                t = array_fn(st, 'amax' if is_max else 'amin', vr, 'real')
                 st.assume(A.forall_idx(v.n, lambda i: (
                     vr.at(i) <= t) if is_max else (vr.at(i) >= t)))
                 st.assume(A.exists_idx(v.n, lambda i: vr.at(i) == t))
@@ -638,12 +645,12 @@ def install(reg):
 
     def np_nanmax(ex, st, args, kw, node):
         v = d_(ex, st, args[0])
-        return Sym(M.f_nanmax(M.as_lambda(A.to_real(v)), v.n), 'real')
+        return Sym(array_fn(st, 'nanmax', A.to_real(v), 'real'), 'real')
     L['np.nanmax'] = np_nanmax
 
     def np_median(ex, st, args, kw, node):
         v = d_(ex, st, args[0])
-        return Sym(M.f_median(M.as_lambda(A.to_real(v)), v.n), 'real')
+        return Sym(array_fn(st, 'median', A.to_real(v), 'real'), 'real')
     L['np.median'] = np_median
 
     def np_argsort(ex, st, args, kw, node):
@@ -734,8 +741,7 @@ def install(reg):
         if isinstance(v, PyList):
             v = d_(ex, st, np_array(ex, st, [args[0]], {}, node))
         if isinstance(v, Arr):
-            vr = A.to_real(v)
-            return Sym(M.f_lse(M.as_lambda(vr), v.n), 'real')
+            return Sym(lse_term(st, v), 'real')
         raise OutsideSubset('logsumexp({!r})'.format(v), node)
     L['logsumexp'] = lse
 
@@ -865,7 +871,35 @@ def repeat_info(st, reps):
     return cache[key][0]
 
 
-def sum_int(st, a):
-    """Sum of an int array as an uninterpreted term with basic facts."""
-    t = M.f_sumi(z3.Lambda([z3.Int('i!lam')], a.at(z3.Int('i!lam'))), a.n)
+def array_fn(st, name, a, kind='real'):
+    """Value of a (mathematical) function of a finite array, e.g. its sum or its
+    logsumexp: a fresh constant per distinct array, related to the other
+    applications of the same function on this path by extensionality (the value
+    depends only on the first len(a) elements). No z3 lambdas / array theory."""
+    if a.k == 'int' and kind == 'real':
+        a = A.to_real(a)
+    probe = a.at(A._PROBE)
+    key = (name, probe.get_id(), a.n.get_id())
+    apps = st.ghost.get('fn_apps', {})
+    if key in apps:
+        return apps[key][0]
+    t = z3.Const(uid(name), A.sort_of(kind))
+    for k2, (t2, a2, _, _) in apps.items():
+        if k2[0] == name:
+            st.assume(z3.Implies(A.arr_eq(a, a2), t == t2))
+    apps = dict(apps)
+    apps[key] = (t, a, probe, a.n)
+    st.ghost['fn_apps'] = apps
     return t
+
+
+def sum_int(st, a):
+    return array_fn(st, 'sum_int', a, 'int')
+
+
+def sum_term(st, a):
+    return array_fn(st, 'sum_int', a, 'int')
+
+
+def lse_term(st, a):
+    return array_fn(st, 'logsumexp', a, 'real')
